@@ -59,7 +59,19 @@ Others ==
     NBin("or", <<NUn("exists", At(<<NKey(KA), NAnyArr, NFilter(NBin("eq", At(<<>>), Lit(1)))>>))>>, <<NBin("eq", At(<<NKey(KB)>>), Lit(2))>>),
     NBin("and", <<NUn("not", <<NUn("exists", At(<<NKey(KA), NAnyArr, NFilter(NBin("eq", At(<<>>), Lit(2)))>>))>>)>>, <<NBin("eq", At(<<NKey(KB)>>), Lit(2))>>),
     NBin("and", <<NBin("gt", At(<<NAnyArr, NFilter(NBin("gt", At(<<>>), Lit(1)))>>), Lit(0))>>, <<NBin("gt", At(<<NMethod("size")>>), Lit(1))>>),
-    NBin("or", <<NBin("eq", At(<<NAnyArr, NFilter(NBin("eq", At(<<>>), <<NStr(KA)>>))>>), <<NStr(KA)>>)>>, <<NBin("eq", At(<<NMethod("type")>>), <<NStr(<<97,114,114,97,121>>)>>)>>) }
+    NBin("or", <<NBin("eq", At(<<NAnyArr, NFilter(NBin("eq", At(<<>>), <<NStr(KA)>>))>>), <<NStr(KA)>>)>>, <<NBin("eq", At(<<NMethod("type")>>), <<NStr(<<97,114,114,97,121>>)>>)>>),
+    (* subscripts inside the condition: a hit followed by a miss and a miss followed by a hit (the status of *)
+    (* the last element must not decide), a failure on an earlier element, a bound that fails suppressibly  *)
+    NUn("exists", At(<<NIdx(<<Sub2(Lit(0), Lit(1))>>), NFilter(NBin("gt", At(<<>>), Lit(1)))>>)),
+    NUn("exists", At(<<NIdx(<<Sub1(Lit(0)), Sub1(Lit(1))>>), NFilter(NBin("gt", At(<<>>), Lit(1)))>>)),
+    NUn("exists", At(<<NAny(0, -1), NFilter(NBin("eq", At(<<>>), Lit(1)))>>)),
+    NUn("not", <<NUn("exists", At(<<NIdx(<<Sub2(Lit(0), Lit(1))>>), NFilter(NBin("gt", At(<<>>), Lit(1)))>>))>>),
+    NBin("eq", At(<<NIdx(<<Sub1(Lit(0)), Sub1(Lit(1))>>), NKey(KA)>>), Lit(1)),
+    NUn("isunknown", <<NBin("eq", At(<<NIdx(<<Sub1(Lit(0)), Sub1(Lit(1))>>), NKey(KA)>>), Lit(1))>>),
+    NBin("gt", At(<<NIdx(<<Sub1(Lit(0)), Sub1(Lit(1))>>), NMethod("double")>>), Lit(1)),
+    NBin("eq", At(<<NKey(KA), NIdx(<<Sub1(At(<<NKey(KB)>>))>>)>>), Lit(2)),
+    NUn("isunknown", <<NBin("eq", At(<<NKey(KA), NIdx(<<Sub1(At(<<NKey(KB)>>))>>)>>), Lit(2))>>),
+    NUn("not", <<NBin("eq", At(<<NKey(KA), NIdx(<<Sub1(At(<<NKey(KX)>>))>>)>>), Lit(2))>>) }
 Conds == Cmp \cup Others
 CondSeq == SetToSeq(Conds)
 PrefSeq == SetToSeq(PrefixSet)
@@ -72,7 +84,17 @@ Special == { VArr(<<VArr(<<VFlt(2)>>), VFlt(3), VArr(<<VFlt(0), VFlt(5)>>), VArr
              VArr(<<VObj(<<[k |-> KA, v |-> VArr(<<VFlt(2), VFlt(1)>>)], [k |-> KB, v |-> VFlt(2)]>>),
                     VObj(<<[k |-> KA, v |-> VArr(<<VFlt(1), VFlt(2)>>)], [k |-> KB, v |-> VFlt(2)]>>),
                     VObj(<<[k |-> KA, v |-> VArr(<<>>)], [k |-> KB, v |-> VFlt(2)]>>),
-                    VObj(<<[k |-> KA, v |-> VStr(KA)], [k |-> KB, v |-> VStr(KX)]>>)>>) }
+                    VObj(<<[k |-> KA, v |-> VStr(KA)], [k |-> KB, v |-> VStr(KX)]>>)>>),
+             (* rows for the subscripted conditions: hit-miss, miss-hit, miss-miss; member present first / second / never *)
+             VArr(<<VArr(<<VFlt(2), VFlt(1)>>), VArr(<<VFlt(1), VFlt(2)>>), VArr(<<VFlt(1), VFlt(1)>>), VArr(<<VFlt(2)>>)>>),
+             VArr(<<VArr(<<VObj(<<[k |-> KB, v |-> VFlt(1)]>>), VObj(<<[k |-> KA, v |-> VFlt(1)]>>)>>),
+                    VArr(<<VObj(<<[k |-> KA, v |-> VFlt(1)]>>), VObj(<<[k |-> KB, v |-> VFlt(1)]>>)>>),
+                    VArr(<<VObj(<<[k |-> KA, v |-> VFlt(1)]>>), VObj(<<[k |-> KA, v |-> VFlt(2)]>>)>>),
+                    VArr(<<VTrue, VFlt(5)>>), VArr(<<VFlt(5), VTrue>>)>>),
+             VArr(<<VObj(<<[k |-> KA, v |-> VArr(<<VFlt(1), VFlt(2)>>)], [k |-> KB, v |-> VFlt(1)]>>),
+                    VObj(<<[k |-> KA, v |-> VArr(<<VFlt(2), VFlt(1)>>)]>>),
+                    VObj(<<[k |-> KA, v |-> VArr(<<VFlt(2), VFlt(3)>>)], [k |-> KB, v |-> VFlt(0)]>>),
+                    VObj(<<[k |-> KA, v |-> VArr(<<VFlt(2)>>)], [k |-> KB, v |-> VStr(KA)]>>)>>) }
 DocSeq == SetToSeq(TreesUpTo({VFlt(1), VFlt(2), VStr(KA), VTrue, VNull}, <<KA, KB>>, MaxNodes) \cup Special)
 
 ASSUME ndJsonSerialize("c10.ndjson",
